@@ -625,8 +625,9 @@ def _run(report):
     report.add_bounded("sequence length in _assert_expected_unit / number of parameters in the wrappers",
                        "value sequences of length 0..2 (quick) / 0..3 (thorough) over 4 item kinds, 3-parameter signatures in 3 call styles; "
                        "each shape is proved for ALL values (gate verdicts are uninterpreted)", nshape, True)
-    from . import c04_probe
+    from . import c04_probe, c04_qvector
     c04_probe.run(report)
+    report.extra["quantity_vector_shapes"] = c04_qvector.run(report, 3 if report.tier == "thorough" else 2)
     report.extra["callee_contracts_used"] = sorted(set().union(*[x.used_contracts for x in execs]))
     report.extra["library_models_used"] = sorted(set().union(*[x.used_models for x in execs]))
     from ..contracts import audit
